@@ -77,7 +77,7 @@ Definition finish (legacy : bool) (c : case) : result finished :=
   do st <- map_run sym_body (c_funcs c) (c_inputs c) (c_internal c);
   do ri <- create_run_info root_name version_name (c_funcs c) (c_inputs c) (user_internal c) (c_func_int c)
                            (c_storage c) (r_shapes st);
-  do outs <- outs_of_run (c_funcs c) (c_storage c) st;
+  do outs <- outs_of_run (c_funcs c) (normalize_storage (c_storage c)) st;
   do w <- world_of legacy (c_persist c) root_name ri (map (fun kv => (fst kv, PVal (snd kv))) (c_inputs c))
                    (PEnv (pipeline_defaults (c_funcs c))) outs;
   Ok {| f_info := ri; f_outs := outs; f_world := w; f_state := st |}.
@@ -173,12 +173,12 @@ Definition run (c : case) : sx := run_with false c.
 (* Written against the request's denotation (Model/MapDenote.v) and the observation itself:
    for a valid request, (1) what the run returned is the denotation; (2) every output whose storage persists
    reloads to exactly what the run returned, in both loads; (3) RunInfo.load gives field-wise what the run's own
-   RunInfo held, with the storage choice and MapSpec strings of the request, and the inputs/defaults that were given;
+   RunInfo held, with the storage choice (a 1-tuple key denoting the bare name) and MapSpec strings of the request, and the inputs/defaults that were given;
    (4) load_xarray_dataset succeeds whenever pipefunc's own in-memory labelling of the same run does;
    (5) loading leaves the folder's contents unchanged. *)
 Definition kind_persists (c : case) (f : mfunc) : bool :=
   if negb (is_mapped f) then true else
-  match storage_class (c_storage c) (output_key_of f) with
+  match storage_class (normalize_storage (c_storage c)) (output_key_of f) with
   | Ok FileArrayK => true
   | Ok _ => c_persist c
   | Err _ => false
@@ -228,7 +228,7 @@ Definition spec_ok (c : case) (o : sx) : bool :=
           && sx_eqb ran_inputs (sx_inputs (map (fun kv => (fst kv, PVal (snd kv))) (c_inputs c)))
           && match ran_info with
              | SL [_; _; _; _; st; specs; _; _] =>
-                 sx_eqb st (sx_storage (c_storage c))
+                 sx_eqb st (sx_storage (normalize_storage (c_storage c)))
                  && sx_eqb specs (SL (map SS (sort_set (flat_map (fun f => match fspec f with
                                                                            | Some ms => [print ms] | None => [] end) (c_funcs c)))))
              | _ => false end
